@@ -18,6 +18,7 @@ func init() {
 		ruleF4(c, "C05.F4")
 		ruleS3(c, "C05.F5")
 		ruleF6(c, "C05.F6")
+		ruleW1(c, "C05.F7")
 		ruleR3(c, "C05.R3")
 		ruleR6(c, "C05.R6")
 	}
